@@ -18,9 +18,9 @@ Check(r) ==
   ELSE IF r.mode = "syntax" THEN
        LET d == S!DumpLines(r.src, r.dbg) IN
        IF Len(r.stdout) < Len(d) \/ SubSeq(r.stdout, 1, Len(d)) # d THEN <<"syntax-dump">>
-       ELSE LET m == Matches(SubSeq(r.stdout, Len(d) + 1, Len(r.stdout)), r.results, <<>>, FALSE) IN
+       ELSE LET m == Matches(SubSeq(r.stdout, Len(d) + 1, Len(r.stdout)), r.results, <<>>, FALSE, r.text, r.plain) IN
             (IF m # "" THEN <<m>> ELSE <<>>) \o (IF r.exit # 0 THEN <<"exit-status">> ELSE <<>>)
-  ELSE LET m == Matches(r.stdout, r.results, IF r.mode \in {"describe", "describe_after"} THEN r.descs ELSE <<>>, r.mode = "exact") IN
+  ELSE LET m == Matches(r.stdout, r.results, IF r.mode \in {"describe", "describe_after"} THEN r.descs ELSE <<>>, r.mode = "exact", r.text, r.plain) IN
        (IF m # "" THEN <<m>> ELSE <<>>) \o (IF r.exit # 0 THEN <<"exit-status">> ELSE <<>>)
 VARIABLES l
 Init == l = 1
